@@ -209,6 +209,7 @@ pub fn run_pipeline(
     }
 
     let mut cmd_result = CommandResult::new();
+    let mut last_stage_not_forked = false;
     for i in 0..length {
         let child_id: i32 = run_single_program(
             sh,
@@ -225,6 +226,9 @@ pub fn run_pipeline(
 
         if child_id > 0 && !cl.background {
             fg_pids.push(child_id);
+        }
+        if child_id == 0 && i + 1 == length {
+            last_stage_not_forked = true;
         }
     }
 
@@ -243,7 +247,9 @@ pub fn run_pipeline(
         // for capture commands, e.g. `echo foo` in `echo "hello $(echo foo)"
         // the cmd_result is already built in loop calling run_single_program()
         // above.
-        if !capture {
+        // when the last stage could not be forked, the failure recorded
+        // by run_single_program() is the result of the pipeline.
+        if !capture && !last_stage_not_forked {
             cmd_result = _cr;
         }
     }
@@ -608,6 +614,30 @@ fn run_single_program(
 
         Err(_) => {
             println_stderr!("Fork failed");
+            // release the pipe ends this stage would have taken over,
+            // otherwise its neighbours never see EOF / EPIPE.
+            if idx_cmd < pipes_count {
+                let fds = pipes[idx_cmd];
+                libs::close(fds.1);
+            }
+            if idx_cmd > 0 {
+                let fds = pipes[idx_cmd - 1];
+                libs::close(fds.0);
+            }
+            if let Some(fds) = fds_stdin {
+                libs::close(fds.0);
+                libs::close(fds.1);
+            }
+            if idx_cmd == pipes_count && options.capture_output {
+                if let Some(fds) = fds_capture_stdout {
+                    libs::close(fds.0);
+                    libs::close(fds.1);
+                }
+                if let Some(fds) = fds_capture_stderr {
+                    libs::close(fds.0);
+                    libs::close(fds.1);
+                }
+            }
             *cmd_result = CommandResult::error();
             0
         }
